@@ -68,7 +68,7 @@ def main():
         "checks": checks,
         "not_applicable": na,
         "notes": "All checks: cwd /verif, honour VERIF_SEED / VERIF_TIER, rebuild the harness from /repo's working "
-                 "tree, re-check the Lean theorems, rewrite evidence/<id>.json. Known findings: known_findings.json.",
+                 "tree, re-check the Lean theorems, rewrite evidence/<id>.json. Known findings: known_findings.d/Cxx.json (merged copy: known_findings.json).",
     }
     with open(os.path.join(core.VERIF, "MANIFEST.json"), "w") as f:
         json.dump(man, f, indent=1)
